@@ -80,7 +80,12 @@ pub fn write_samgz<W: Write>(w: W, p: &Parsed) -> io::Result<W> {
 pub fn write_bam<W: Write>(w: W, p: &Parsed) -> io::Result<()> {
     let mut w = bam::io::Writer::new(w);
     w.write_header(&p.header)?;
-    for r in &p.records {
+    for (i, r) in p.records.iter().enumerate() {
+        if let Some(bad) = rejected_record(p, i) {
+            if w.write_alignment_record(&p.header, &bad).is_ok() {
+                return Err(io::Error::other("nsim: the invalid record was accepted"));
+            }
+        }
         w.write_alignment_record(&p.header, r)?;
     }
     w.finish(&p.header)?;
@@ -91,7 +96,12 @@ pub fn write_bam<W: Write>(w: W, p: &Parsed) -> io::Result<()> {
 pub fn write_bam_raw<W: Write>(w: W, p: &Parsed) -> io::Result<W> {
     let mut w = bam::io::Writer::from(w);
     w.write_header(&p.header)?;
-    for r in &p.records {
+    for (i, r) in p.records.iter().enumerate() {
+        if let Some(bad) = rejected_record(p, i) {
+            if w.write_alignment_record(&p.header, &bad).is_ok() {
+                return Err(io::Error::other("nsim: the invalid record was accepted"));
+            }
+        }
         w.write_alignment_record(&p.header, r)?;
     }
     w.finish(&p.header)?;
@@ -217,4 +227,21 @@ pub fn write_util_alignment<W: Write>(w: W, p: &Parsed, format: noodles_util::al
         w.write_record(&p.header, r)?;
     }
     w.finish(&p.header)
+}
+
+/// C16 writer scenarios: before the record with this index an *invalid* record is offered to the
+/// writer (quality scores shorter than the sequence: both twins must refuse it with an error and go
+/// on as if nothing had happened). usize::MAX = none. Process-wide: a worker runs one case at a time.
+pub static REJECTED_RECORD_AT: std::sync::atomic::AtomicUsize = std::sync::atomic::AtomicUsize::new(usize::MAX);
+
+/// The invalid record offered at index `i`, if the scenario asks for one there.
+pub fn rejected_record(p: &Parsed, i: usize) -> Option<RecordBuf> {
+    if REJECTED_RECORD_AT.load(std::sync::atomic::Ordering::Relaxed) != i {
+        return None;
+    }
+    // the first record with at least two bases, its quality scores cut to one value
+    let src = p.records.iter().find(|r| r.sequence().len() >= 2)?;
+    let mut r = src.clone();
+    *r.quality_scores_mut() = noodles_sam::alignment::record_buf::QualityScores::from(vec![30u8]);
+    Some(r)
 }
